@@ -85,6 +85,11 @@ def run(ck):
         p = {"xc": N / 2 + rng.uniform(-4, 4), "yc": N / 2 + rng.uniform(-4, 4), "flux": 100.0, "r_eff": rng.uniform(1.5 if i % 2 else 1.0, N / 12),
              "n": rng.uniform(0.8, 6) if i % 3 else rng.uniform(0.8, 2.5), "ellip": rng.uniform(0, 0.8), "theta": rng.uniform(0, 3.14)}
         cases.append({"mode": "agree", "N": N, "params": p, "psf": ["gauss", "moffat", "asym"][i % 3], "fwhm": rng.uniform(2.5, 4.5)})
+    for i in range(1 if quick else 6):
+        N = 64
+        p = {"xc": N / 2 + rng.uniform(-2, 2), "yc": N / 2 + rng.uniform(-2, 2), "flux": 100.0, "r_eff": rng.uniform(1.0, 3.0), "n": rng.uniform(0.8, 4), "ellip": rng.uniform(0, 0.6),
+             "theta": rng.uniform(0, 3.14)}
+        cases.append({"mode": "agree", "N": N, "params": p, "psf": "gauss_even", "fwhm": rng.uniform(2.5, 3.5), "ms": [3, 5, 8]})
     ck.log("implementation: %d comparisons with the reference renderer" % len(cases))
     import concurrent.futures as cf
     nsh = min(6, vlib.NCPU)
